@@ -13,6 +13,7 @@ CASES = {
     'versions': {'entries': 1, 'alternatives': 1, 'version_kinds': 4, 'ws_styles': 2, 'ident_chars': 1},
     'archs':    {'entries': 1, 'alternatives': 1, 'archs': 2, 'version_kinds': 1, 'ws_styles': 5},
     'profiles': {'entries': 1, 'alternatives': 1, 'profile_groups': 2, 'profile_terms': 2, 'no_version': True, 'ws_styles': 5},
+    'pre-comma': {'entries': 3, 'alternatives': 1, 'no_version': True, 'pre_comma': True, 'ws_styles': 4},
     'field':    {'entries': 2, 'alternatives': 1, 'substvars': True, 'empty_entries': True, 'trailing_comma': True, 'version_kinds': 1, 'ws_styles': 4},
 }
 THOROUGH = {
@@ -29,7 +30,7 @@ class C10(Harness):
     bounds = {'quick': CASES, 'thorough': dict(CASES, **THOROUGH)}
     assumptions = ['fields are generated from the Policy 7.1 grammar: comma separated entries (optionally empty entries, trailing comma), "|" alternatives, name[:archqual] [(op version)] [[!]arch ...] [<[!]profile ...> ...], ${substvars} where enabled',
                    'identifier characters are symbolic within [A-Za-z0-9.+~-] (first character alphanumeric); versions: digit | digit:digit | digit~x | digit-digit with symbolic digits',
-                   'whitespace layout is one of 5 styles applied at every optional position: single space, compact, tab, newline+space, bare newline',
+                   'whitespace layout is one of 5 styles applied at every optional position: single space, compact, tab, newline+space, bare newline; the pre-comma family also puts a blank between an entry and the comma after it',
                    'the negation of an architecture is expected to be exposed as a leading "!" of the architecture string']
 
     def cases(self, tier):
